@@ -160,4 +160,17 @@ Section Flatten.
          end]
     | RRead now pkts => flat_map (pkt_events now) pkts ++ [HReport]
     end.
+
+  (* what the Report attribute of a read must hold, r = the calls made before the operation *)
+  Definition rspec_out (r : list hop) (o : rop) : list prep :=
+    match o with
+    | RSend _ _ _ _ _ _ => []
+    | RRead now pkts => spec_report (rev (flat_map (pkt_events now) pkts) ++ r)
+    end.
+
+  Fixpoint rspec_run (r : list hop) (ops : list rop) : list (list prep) :=
+    match ops with
+    | [] => []
+    | o :: ops' => rspec_out r o :: rspec_run (rev (rop_events o) ++ r) ops'
+    end.
 End Flatten.
